@@ -242,8 +242,10 @@ def check_case(ctx, case):
                 with mock.patch.object(mod, "_simulate_catalog", spy), mock.patch.object(numpy.random, "uniform", counted_uniform):
                     o = call(fn, fore, S.catalog(region), num_simulations=nsim, seed=seed)
             else:
+                # second run: simulation count and seed handed over positionally (documented order: forecast, catalog,
+                # num_simulations, seed, random_numbers, verbose)
                 with mock.patch.object(numpy.random, "uniform", counted_uniform):
-                    o = call(fn, fore, S.catalog(region), num_simulations=nsim, seed=seed)
+                    o = call(fn, fore, S.catalog(region), nsim, seed)
             if not o.ok:
                 if isinstance(o.exc, DrawBudgetExceeded):
                     ctx.violation(name + ":rejection_sampler_cannot_reach_positive_rate_bins", {"draws": ndraw[0], "n_active": n_act})
